@@ -353,60 +353,133 @@ def segment_streams(fn, src_pred=None):
             return text
         return norm(r.visit(e))
 
+    from ..yieldpaths import resolve as _resolve
+
+    def identity_elt(elt, target):
+        """the comprehension element is the segment itself (same tuple / same variable)"""
+        return norm(elt) == norm(target) or (isinstance(elt, _ast.Tuple) and isinstance(target, _ast.Tuple) and [norm(e) for e in elt.elts] == [norm(e) for e in target.elts])
+
+    def enclosing_true_facts(node, defs):
+        facts = {}
+        cur, child = fn.module.parent_of.get(node), node
+        while cur is not None and cur is not fn.node:
+            if isinstance(cur, _ast.If):
+                truth = any(child is b for b in cur.body)
+                for a, v in canon_test(inline(cur.test, defs), truth):
+                    facts[a] = v
+            cur, child = fn.module.parent_of.get(cur), cur
+        return facts
+
+    def prefilters(src, before_line, defs):
+        """[(guard facts, filter facts)] for re-assignments `src = <identity comprehension over src with ifs>` or
+        `src = Segment.filter_control(src)` that precede the stream"""
+        out = []
+        if not isinstance(src, _ast.Name):
+            return out
+        for a in walk_local(fn.node):
+            if not (isinstance(a, _ast.Assign) and len(a.targets) == 1 and norm(a.targets[0]) == src.id and a.lineno < before_line):
+                continue
+            v = a.value
+            flt = None
+            if isinstance(v, (_ast.ListComp, _ast.GeneratorExp)) and len(v.generators) == 1 and norm(v.generators[0].iter) == src.id and identity_elt(v.elt, v.generators[0].target):
+                rr = renamer(v.generators[0].target)
+                if rr is not None:
+                    flt = {}
+                    for cond in v.generators[0].ifs:
+                        for at, tv in canon_test(rr[0].visit(copy.deepcopy(inline(cond, defs))), True):
+                            flt[at] = tv
+            elif isinstance(v, _ast.Call) and norm(v.func).endswith("filter_control") and len(v.args) == 1 and norm(v.args[0]) == src.id and not v.keywords:
+                flt = {"CTRL": False}
+            if flt:
+                out.append((enclosing_true_facts(a, defs), flt))
+        return out
+
+    def with_prefilters(paths, pfs):
+        for guard, flt in pfs:
+            new = []
+            for d, e in paths:
+                # guard holds: the element passed the filter
+                d1 = dict(d)
+                ok1 = all(d1.get(k, v) == v for k, v in list(guard.items()) + list(flt.items()))
+                if ok1:
+                    d1.update(guard)
+                    d1.update(flt)
+                    new.append((d1, e))
+                # guard does not hold (one path per negated guard atom)
+                for k, v in guard.items():
+                    if d.get(k, not v) == (not v):
+                        d2 = dict(d)
+                        d2[k] = not v
+                        new.append((d2, e))
+            # elements removed by the filter: nothing is emitted for them
+            for k, v in flt.items():
+                d3 = dict(guard)
+                d3[k] = not v
+                new.append((d3, None))
+            paths = new
+        return paths
+
+    # generator functions nested in fn (`def render_segments(): for .. in buffer: yield ..`) belong to fn
+    scopes = [fn.node] + [x for x in walk_local(fn.node) if isinstance(x, _ast.FunctionDef) and x is not fn.node]
     streams = []
-    for x in walk_local(fn.node):
-        if isinstance(x, (_ast.ListComp, _ast.GeneratorExp)) and len(x.generators) == 1:
-            ge = x.generators[0]
-            rr = renamer(ge.target)
-            if rr is None or (src_pred is not None and not src_pred(ge.iter)):
-                continue
-            r, bound = rr
-            en = Enumerator(fn.node)
-            en.defs = {k: v for k, v in en.defs.items() if k not in bound}
-            base = []
-            for cond in ge.ifs:
-                base += canon_test(r.visit(copy.deepcopy(inline(cond, en.defs))), True)
-            paths = []
-            for facts, txt in en.forks(x.elt):
-                d = dict(base)
-                for e in facts:
-                    for a, v in canon_test(_ast.parse(retext(r, e[1]), mode="eval").body, e[2]):
-                        d[a] = v
-                paths.append((d, retext(r, txt)))
-            for cond in ge.ifs:
-                paths.append((dict(canon_test(r.visit(copy.deepcopy(inline(cond, en.defs))), False)), None))
-            streams.append((ge.iter, paths, x))
-        elif isinstance(x, _ast.For):
-            rr = renamer(x.target)
-            if rr is None or (src_pred is not None and not src_pred(x.iter)):
-                continue
-            r, bound = rr
-            en = Enumerator(fn.node)
-            en.defs = {k: v for k, v in en.defs.items() if k not in bound}
-            try:
-                bodies = en.block(x.body)
-            except Unsupported as u:
-                raise AnalysisError(f"{fn.fq}: loop over the segments uses a statement outside the path normal form ({u})")
-            paths = []
-            for ev, _t in bodies:
-                d = {}
-                for e in ev:
-                    if e[0] == "cond":
+    for scope in scopes:
+        nodes = list(walk_local(fn.node)) if scope is fn.node else [y for st in scope.body for y in _ast.walk(st)]
+        for x in nodes:
+            if isinstance(x, (_ast.ListComp, _ast.GeneratorExp)) and len(x.generators) == 1:
+                ge = x.generators[0]
+                rr = renamer(ge.target)
+                if rr is None or (src_pred is not None and not src_pred(ge.iter)):
+                    continue
+                if identity_elt(x.elt, ge.target) and ge.ifs:
+                    continue  # a pure filter of the stream: handled as a pre-filter of the stream that consumes it
+                r, bound = rr
+                en = Enumerator(fn.node)
+                en.defs = {k: v for k, v in en.defs.items() if k not in bound}
+                base = []
+                for cond in ge.ifs:
+                    base += canon_test(r.visit(copy.deepcopy(inline(cond, en.defs))), True)
+                paths = []
+                for facts, txt in en.forks(x.elt):
+                    d = dict(base)
+                    for e in facts:
                         for a, v in canon_test(_ast.parse(retext(r, e[1]), mode="eval").body, e[2]):
                             d[a] = v
-                emits = []
-                for e in ev:
-                    if e[0] == "do" and ".append(" in e[1]:
-                        c = _ast.parse(e[1], mode="eval").body
-                        if isinstance(c, _ast.Call) and len(c.args) == 1:
-                            emits.append(retext(r, norm(c.args[0])))
-                    elif e[0] == "yield":
-                        emits.append(retext(r, e[1]))
-                if not emits:
-                    paths.append((d, None))
-                for em in emits:
-                    paths.append((d, em))
-            streams.append((x.iter, paths, x))
+                    paths.append((d, retext(r, txt)))
+                for cond in ge.ifs:
+                    paths.append((dict(canon_test(r.visit(copy.deepcopy(inline(cond, en.defs))), False)), None))
+                streams.append((ge.iter, with_prefilters(paths, prefilters(ge.iter, x.lineno, en.defs)), x))
+            elif isinstance(x, _ast.For):
+                rr = renamer(x.target)
+                if rr is None or (src_pred is not None and not src_pred(x.iter)):
+                    continue
+                r, bound = rr
+                en = Enumerator(fn.node)
+                en.defs = {k: v for k, v in en.defs.items() if k not in bound}
+                try:
+                    bodies = en.block(x.body)
+                except Unsupported as u:
+                    raise AnalysisError(f"{fn.fq}: loop over the segments uses a statement outside the path normal form ({u})")
+                paths = []
+                for ev, _t in bodies:
+                    ev = list(_resolve(tuple(ev)))
+                    d = {}
+                    for e in ev:
+                        if e[0] == "cond":
+                            for a, v in canon_test(_ast.parse(retext(r, e[1]), mode="eval").body, e[2]):
+                                d[a] = v
+                    emits = []
+                    for e in ev:
+                        if e[0] == "do" and ".append(" in e[1]:
+                            c = _ast.parse(e[1], mode="eval").body
+                            if isinstance(c, _ast.Call) and len(c.args) == 1:
+                                emits.append(retext(r, norm(c.args[0])))
+                        elif e[0] == "yield":
+                            emits.append(retext(r, e[1]))
+                    if not emits:
+                        paths.append((d, None))
+                    for em in emits:
+                        paths.append((d, em))
+                streams.append((x.iter, with_prefilters(paths, prefilters(x.iter, x.lineno, en.defs)), x))
     return streams
 
 
